@@ -104,6 +104,20 @@ class Subject:
         return len(s.calls)
 
 
+# subjects used by schedule harnesses only (not letters of the histories): a class whose tagged struct field has no
+# explicit default - its implicit default is RESOLVED while the reader / writer is derived
+EXTRA_SET = ["kio.schema.fetch_snapshot.v1.response:PartitionSnapshot", "kio.schema.update_raft_voter.v0.response:UpdateRaftVoterResponse"]
+_extra = None
+
+
+def extra_subjects():
+    global _extra
+    if _extra is None:
+        _extra = [Subject(p) for p in EXTRA_SET]
+        clear_caches()
+    return _extra
+
+
 _subjects = None
 
 
@@ -472,6 +486,7 @@ def harnesses():
 
     S = subjects()
     A, B, C, D, E, F = S
+    G, K = extra_subjects()
 
     def w_body(s, i, cold=True):
         def body():
@@ -501,6 +516,10 @@ def harnesses():
         # both threads inside the multi-byte varint path at once (two different long values of one class / of two classes)
         "warm-writers-two-long-values": (warm, lambda: [w_body(A, 1), w_body(A, 2)], [A.golden[1], A.golden[2]]),
         "warm-writers-long-values-different-class": (warm, lambda: [w_body(C, 2), w_body(A, 1)], [C.golden[2], A.golden[1]]),
+        # cold derivation of a class whose tagged struct default has to be resolved, from two threads at once; and next
+        # to another class that shares nothing with it
+        "cold-implicit-struct-default": (clear_caches, lambda: [w_body(G, 1), r_body(G, 0)], [G.golden[1], G.insts[0]]),
+        "cold-implicit-struct-default-two-classes": (clear_caches, lambda: [r_body(G, 1), w_body(K, 1)], [G.insts[1], K.golden[1]]),
         "cold-writers-same-class": (clear_caches, lambda: [w_body(D, 0), w_body(D, 1)], [D.golden[0], D.golden[1]]),
         "cold-readers-same-class": (clear_caches, lambda: [r_body(D, 0), r_body(D, 1)], [D.insts[0], D.insts[1]]),
         "cold-nested-vs-parent": (clear_caches, lambda: [w_body(B, 1), w_body(A, 0)], [B.golden[1], A.golden[0]]),
@@ -531,13 +550,21 @@ def run_schedules(name, bound, opcode, acc, max_schedules=None, part=None):
         acc.add("schedules")
         for tid, (st, v) in enumerate(ex.results):
             if st != "ok" or v != expected[tid]:
-                # believe a failure only if the same schedule fails identically twice
-                again = sched.replay_twice(make_bodies, files, schedule, observe, opf, setup)
-                st2, v2 = again[tid]
-                if st2 == "ok" and v2 == expected[tid]:
-                    raise HarnessError(f"schedule failure not reproducible: {schedule}")
+                # replay the same schedule twice from the harness's clean start.  The failure observed above happened on
+                # the real code under a recorded schedule, so it is reported either way; when the replays do not repeat
+                # it, the library keeps state that the clean start (cache_clear) does not reset - what C19 excludes -
+                # and the signature says so
                 case = {"harness": name, "schedule": schedule, "thread": tid, "opcode_points": bool(opcode)}
                 what = "thread-raised" if st != "ok" else ("wrong-bytes" if isinstance(expected[tid], bytes) else "wrong-value")
+                try:
+                    again = sched.replay_twice(make_bodies, files, schedule, observe, opf, setup)
+                    st2, v2 = again[tid]
+                    if st2 == "ok" and v2 == expected[tid]:
+                        what += "/not-repeated-on-replay-state-survives-a-clean-start"
+                except HarnessError as e:
+                    if "different observations" not in str(e):
+                        raise
+                    what += "/replays-differ-state-survives-a-clean-start"
                 acc.report(violation("C19", "schedules", f"C19/schedules/{what}", name, case,
                                      expected[tid].hex()[:300] if isinstance(expected[tid], bytes) else repr(expected[tid])[:300],
                                      (v.hex()[:300] if isinstance(v, bytes) else repr(v)[:300]),
